@@ -725,6 +725,19 @@ def db_summary_rewritten(ctx, model, case):
         if st == "err":
             ctx.hit("db-summary-rewrite:save-rejected")
             return
+        # the samples themselves: saved, loaded, saved again (other samples), loaded again on the same paths object
+        st_s, e_s = attempt(lambda: (paths.save_samples(both[0]), s.commit(), paths.samples, paths.save_samples(both[1]), s.commit()))
+        if st_s == "ok":
+            def again():
+                got_ = paths.samples
+                got_.model = model
+                return got_
+            st_s, got_s = attempt(again)
+            if st_s == "err":
+                ctx.fail(classify(model, case2, "load-raises", "db"), "db: loading samples saved a second time raises", dict(case2, route="db:again"), got_s)
+            else:
+                ctx.hit("route:db-samples-written-again")
+                check_loaded(ctx, model, case2, "db:again", got_s, truth(model, spec2, best=own_best(both[1], both[1])), derived(both[1]))
         ctx.hit("route:db-summary-written-again")
         tr2 = truth(model, spec2, best=own_best(both[1], both[1]))
         st, got = attempt(paths.load_samples_summary)
